@@ -140,3 +140,67 @@ Print Assumptions C01_only_records_serialised_partial.
 Theorem C01_favfolder_is_not_a_record : forall c, lookup "FavFolder" (env c) = None.
 Proof. exact favfolder_not_record. Qed.
 Print Assumptions C01_favfolder_is_not_a_record.
+
+(* ---- histories: several writes in ONE process, some refused by the operating system (ENOSPC on a full device,
+   EFBIG, EBADF on a read-only or closed handle: DevRefuse). run_history folds hstep over the two files
+   (.PASSWDS, one user's .PASSWD2); steps: SField (PasswdUpdatePasswd / PasswdUpdateEmail / SetUMoney),
+   SRecord (PasswdUpdate, whole record), SLevel2 (PasswdUpdateUserLevel2). *)
+
+(* refused writes leave no trace: after ANY history the files are those its accepted steps alone produce; a
+   refused step reports an error and returns both files as they were; a history of refused steps changes nothing *)
+Theorem C01_history_refused_writes_leave_no_trace :
+  (forall c h st, snd (run_history c h st) = snd (run_history c (filter step_accepted h) st)) /\
+  (forall c s st, step_accepted s = false -> snd (hstep c s st) = st /\ fst (fst (hstep c s st)) = ST_ERR) /\
+  (forall c h st, forallb (fun s => negb (step_accepted s)) h = true -> snd (run_history c h st) = st).
+Proof. exact history_refused_all. Qed.
+Print Assumptions C01_history_refused_writes_leave_no_trace.
+
+(* the second use is a first use: after ANY history h (accepted and refused steps in any order, from any files
+   st0), for every configuration, field of the user record, accepted uid and value: the refused update reports
+   the I/O error and leaves both files alone; the accepted update satisfies the whole single-field frame of
+   C01_partial_update_frame with respect to the file the history left, and does not touch .PASSWD2 *)
+Theorem C01_history_step_frame : forall c h st0 fname i uid v,
+  let st := snd (run_history c h st0) in
+  field_index (userec c) fname = Some i ->
+  wt (field_ty (userec c) i) v = true ->
+  1 <= uid <= max_users c ->
+  go_size (userec c) * uid <= lenZ (st_pw st) ->
+  let t := userec c in
+  let sz := Z.to_nat (go_size t) in
+  let off := Z.to_nat (go_size t * (uid - 1) + field_off t i) in
+  let n := psz (field_ty t i) in
+  hstep c (SField fname DevRefuse uid v) st = ((ST_ERR, ERR_IO), st) /\
+  exists file', hstep c (SField fname DevOk uid v) st = ((ST_OK, 0), {| st_pw := file'; st_pw2 := st_pw2 st |}) /\
+    length file' = length (st_pw st) /\
+    (sz * Z.to_nat (uid - 1) <= off /\ off + n <= sz * Z.to_nat uid)%nat /\
+    firstn off file' = firstn off (st_pw st) /\
+    skipn (off + n) file' = skipn (off + n) (st_pw st) /\
+    read_at off n file' = encode (field_ty t i) v /\
+    (forall k, k <> Z.to_nat (uid - 1) -> record sz k file' = record sz k (st_pw st)) /\
+    exists old, decode t (record sz (Z.to_nat (uid - 1)) (st_pw st)) = Some (VList old, []) /\
+                decode t (record sz (Z.to_nat (uid - 1)) file') = Some (VList (set_nth i v old), []).
+Proof. exact history_step_frame. Qed.
+Print Assumptions C01_history_step_frame.
+
+(* over a whole history: every byte of .PASSWDS that lies outside the ranges [offset, offset + image length) of
+   the ACCEPTED steps with a valid uid keeps its value (bytes beyond the end read as 0); refused steps and
+   level-2 steps contribute no range; and the two files are separate (without a level-2 step .PASSWD2 is
+   unchanged, level-2 steps alone leave .PASSWDS unchanged) *)
+Theorem C01_history_untouched_bytes :
+  (forall c h st p, outside p (touched c h) -> nth p (st_pw (snd (run_history c h st))) 0 = nth p (st_pw st) 0) /\
+  (forall c h st,
+     (forallb (fun s => negb (is_level2 s)) h = true -> st_pw2 (snd (run_history c h st)) = st_pw2 st) /\
+     (forallb is_level2 h = true -> st_pw (snd (run_history c h st)) = st_pw st)).
+Proof. exact history_untouched_all. Qed.
+Print Assumptions C01_history_untouched_bytes.
+
+(* types.BinaryWrite(writer, value) for every type description, well-typed value and writer (unlimited, or taking
+   k bytes and refusing the rest): what reaches the writer is the value's image - whole, and then it has the
+   packed size and reads back as the value, or, with the I/O error, its first k bytes; nothing of any earlier call *)
+Theorem C01_binary_write_delivers_image : forall t v room, wt t v = true -> rty_wf t = true ->
+  let o := fst (binary_write_to t v room) in
+  let got := snd (binary_write_to t v room) in
+  (o = (ST_OK, 0) /\ got = encode t v /\ decode t got = Some (v, []) /\ lenZ got = packed_size t) \/
+  (o = (ST_ERR, ERR_IO) /\ exists k, room = Some k /\ (k < length (encode t v))%nat /\ got = firstn k (encode t v)).
+Proof. exact binary_write_delivers. Qed.
+Print Assumptions C01_binary_write_delivers_image.
